@@ -66,7 +66,14 @@ def shards(tier, seed):
     return out
 
 
-def classify(mech, text):
+IMPORT_SYMPTOMS = ("generated-class-not-exported", "generated-class-missing", "first-import-fails", "import-eolib-fails",
+                   "module-not-importable", "public-name-not-exported", "attribute-walk-fails")
+
+
+def classify(mech, text, hazards=()):
+    if hazards and mech in IMPORT_SYMPTOMS:
+        # known finding: cross-directory references against the package layering (see DESIGN 10.2)
+        return "non-layered-references:" + "+".join(hazards)
     if mech in ("attribute-walk-reaches-wrong-object", "attribute-walk-fails"):
         return "subpackage-attribute-shadowed-by-star-import"
     return mech
@@ -83,6 +90,9 @@ def run(shard, rec, tier, seed):
         rec.inconclusive.append("SpecGen tree %d fails its grammar certificate" % ti)
         return
     files = S.render(spec)
+    hazards = campaign.import_hazards(spec)
+    if hazards:
+        rec.count("trees-with-non-layered-references")
     st, ok, err, out = stage.full(files, do_import=False)
     if not ok:
         rec.count("base-spec-rejected-by-generator")
@@ -117,7 +127,7 @@ def run(shard, rec, tier, seed):
             rec.count("generated-classes-checked", c["generated_classes"])
             rec.seen("first-imports", first if "._generated" not in first else "eolib.protocol._generated.*")
             for mech, text in res["problems"][:6]:
-                rec.violation(classify(mech, text), "tree %d, first import %s: %s" % (ti, first, text), {"tree": ti, "first_import": first, "problem": text, "xml": files})
+                rec.violation(classify(mech, text, hazards), "tree %d, first import %s: %s" % (ti, first, text), {"tree": ti, "first_import": first, "problem": text, "xml": files})
         if shard["part"] == 0:
             rec.sample({"tree": ti, "modules": len(mods), "first_imports_tried": len(firsts), "example_first_import": firsts[0] if firsts else None})
     finally:
